@@ -348,6 +348,30 @@ def run(facts, tier):
     flush_rule(facts, l5)
     rules.append(l5.finish())
 
+    # ---------------- L3.8 the evaluators rebuild contexts alike (labels, bindings): shared with C02 T2.8
+    from c02 import rule_ctx_agreement
+    rules.append(rule_ctx_agreement(facts, "L3.8").finish())
+
+    # ---------------- L3.9 input streams are not read to their end up front
+    l9 = Rule("L3.9", "an input stream (standard input, a reader) is read to its end in one go only where the format needs the whole document (TOML, XML, YAML) or the "
+              "user asked for it (`--slurp` of raw input): per crate, the number of `Read::read_to_end` / `io::read_to_string` call sites does not exceed the reviewed ones "
+              "(reading standard input completely before evaluating makes `first(inputs)` and every output wait for end of input)", floor=2)
+    REVIEWED_READ_ALL = {"jaq_fmts": 2}   # formats::read_string (whole-document formats), formats::read (Raw with --slurp)
+    found = collections.Counter()
+    where_ = {}
+    for crate_, j_ in facts.all_mir():
+        if j_.get("test") or j_["def"].startswith("jaq::funs::repl") or (j_.get("root") or "").startswith("jaq::funs::repl"):
+            continue
+        for i_, t_ in Body(j_).calls():
+            if re.search(r"^std::io::Read::(read_to_end|read_to_string)$|^std::io::read_to_string$", t_.get("fn") or ""):
+                found[crate_] += 1
+                where_.setdefault(crate_, []).append((j_["def"], t_["sp"]))
+                l9.examined((j_["def"], t_["sp"]), True, {"fn": j_["def"], "reads_to_end_with": (t_.get("fn") or "").split("::")[-1]})
+    for crate_, n_ in sorted(found.items()):
+        if n_ > REVIEWED_READ_ALL.get(crate_, 0):
+            l9.violate(f"read-all/{crate_}", f"{n_ - REVIEWED_READ_ALL.get(crate_, 0)} new place(s) in crate {crate_} read a stream to its end ({', '.join(d_ for d_, _ in where_[crate_])}): if that stream is standard input, nothing is evaluated or printed before end of input", where=where_[crate_][-1][1])
+    rules.append(l9.finish())
+
     explanation = ("Decided: where streams may be forced at construction time (whole-program call graph, reviewed inventory), the guards of the single-output fast paths (MIR control dependence), "
                    "lazy construction of later operands in the evaluators (typed HIR), flush per output. Not decided: over-forcing inside an iterator's next (a combinator pulling one element too many), "
                    "termination and cost per element.")
